@@ -448,6 +448,13 @@ def split_equations_iter(model: str) -> Iterator[str]:
             'owing to unmatched brackets: ' + '\n'.join(buffer)
         )
 
+    # Similarly, error if a verbatim block was opened but never closed
+    if not complete_verbatim_block:
+        raise ParserError(
+            'Failed to find closing code fence for the verbatim block '
+            'beginning: ' + '\n'.join(buffer)
+        )
+
 
 def split_equations(model: str) -> List[str]:
     """Return the equations of `model` as a list of strings."""
